@@ -628,6 +628,45 @@ class _Norm(ast.NodeTransformer):
             out.append(st)
         return out
 
+    def _loops_to_comprehension(self, stmts):
+        """N40: acc = []; for T in IT: [if C:] acc.append(E)   ->   acc = [E for T in IT if C]
+        (acc a plain local that IT, C and E do not mention; the loop variable is dead after the loop)"""
+        out = []
+        i = 0
+        while i < len(stmts):
+            st = stmts[i]
+            nx = stmts[i + 1] if i + 1 < len(stmts) else None
+            if isinstance(st, ast.Assign) and len(st.targets) == 1 and isinstance(st.targets[0], ast.Name) and isinstance(st.value, ast.List) and \
+                    not st.value.elts and isinstance(nx, ast.For) and not nx.orelse and len(nx.body) == 1:
+                acc = st.targets[0].id
+                inner = nx.body[0]
+                cond = None
+                if isinstance(inner, ast.If) and not inner.orelse and len(inner.body) == 1:
+                    cond, inner = inner.test, inner.body[0]
+                if isinstance(inner, ast.Expr) and isinstance(inner.value, ast.Call) and isinstance(inner.value.func, ast.Attribute) and \
+                        inner.value.func.attr == 'append' and isinstance(inner.value.func.value, ast.Name) and inner.value.func.value.id == acc and \
+                        len(inner.value.args) == 1 and not inner.value.keywords and not isinstance(inner.value.args[0], ast.Starred):
+                    elt = inner.value.args[0]
+                    others = [nx.iter, elt] + ([cond] if cond is not None else [])
+                    tnames = set(x.id for x in ast.walk(nx.target) if isinstance(x, ast.Name))
+                    private = all(isinstance(x, (ast.Name, ast.Tuple, ast.expr_context)) for x in ast.walk(nx.target))
+                    for nm in tnames:
+                        # the loop variable is dead after the loop: every read of it elsewhere in the function sits in another
+                        # loop or comprehension that binds it itself (a shared `i`), none in the statements that follow here
+                        ldc = sum(1 for x in ast.walk(nx) if isinstance(x, ast.Name) and x.id == nm and isinstance(x.ctx, ast.Load))
+                        after = sum(1 for r in stmts[i + 2:] for x in ast.walk(r) if isinstance(x, ast.Name) and x.id == nm and isinstance(x.ctx, ast.Load))
+                        if after or (self.counts.get(nm, (0, 0))[1] != ldc and self.counts.get(nm, (0, 0))[0] < 2):
+                            private = False
+                    if private and not any(isinstance(x, ast.Name) and x.id == acc for o in others for x in ast.walk(o)) and \
+                            not any(isinstance(x, (ast.Yield, ast.YieldFrom, ast.Await, ast.NamedExpr)) for o in others for x in ast.walk(o)):
+                        comp = ast.ListComp(elt=elt, generators=[ast.comprehension(target=nx.target, iter=nx.iter, ifs=[cond] if cond is not None else [], is_async=0)])
+                        out.append(ast.fix_missing_locations(ast.copy_location(ast.Assign(targets=[ast.Name(id=acc, ctx=ast.Store())], value=comp), st)))
+                        i += 2
+                        continue
+            out.append(st)
+            i += 1
+        return out
+
     def _copy_prop(self, stmts):
         """N32: after a plain copy `x = y` (two names), the plain assignments that follow read y where they read x, until x or y
         is written again (`off = offset; end = off + n` is `end = offset + n`).  Only the right-hand sides of plain assignments to
@@ -649,7 +688,7 @@ class _Norm(ast.NodeTransformer):
         return out
 
     def _block(self, stmts):
-        stmts = self._copy_prop(self._next_to_for(self._genexp_to_loops(self._list_extends(self._split_tuples(stmts)))))
+        stmts = self._copy_prop(self._next_to_for(self._genexp_to_loops(self._loops_to_comprehension(self._list_extends(self._split_tuples(stmts))))))
         out = []
         i = 0
         while i < len(stmts):
